@@ -597,6 +597,76 @@ func VerifC01FanInArrayStream() {
 	vassert(out["count"] == n+2, "the fan-in node receives every chunk of both predecessors")
 }
 
+// Stream fan-out behind a node that consumed the head of its input and handed the rest on (the same reader): both
+// successors run on exactly the chunks their predecessor produced, i.e. the rest - array-backed and piped input, any-
+// and all-predecessor mode
+func VerifC01FanOutPartialRead() {
+	ctx := context.Background()
+	vcfg("fifo", 1)
+	vcfg("selectfirst", 1)
+	dag := vchoose("dag", 2) == 1
+	piped := vchoose("piped", 2) == 1
+	xs := []int{vsymInt("x0"), vsymInt("x1"), vsymInt("x2")}
+	g := NewGraph[int, map[string]any]()
+	_ = g.AddLambdaNode("strip", TransformableLambda(func(ctx context.Context, in *schema.StreamReader[int]) (*schema.StreamReader[int], error) {
+		if _, err := in.Recv(); err != nil { // the header chunk
+			return nil, err
+		}
+		return in, nil
+	}))
+	got := map[string][]int{}
+	reader := func(key string) *Lambda {
+		return TransformableLambda(func(ctx context.Context, in *schema.StreamReader[int]) (*schema.StreamReader[map[string]any], error) {
+			var l []int
+			for i := 0; i < 8; i++ {
+				c, err := in.Recv()
+				if err != nil {
+					break
+				}
+				l = append(l, c)
+			}
+			in.Close()
+			vMu.Lock()
+			got[key] = l
+			vMu.Unlock()
+			return schema.StreamReaderFromArray([]map[string]any{{key: len(l)}}), nil
+		})
+	}
+	_ = g.AddLambdaNode("a", reader("a"))
+	_ = g.AddLambdaNode("b", reader("b"))
+	_ = g.AddEdge(START, "strip")
+	_ = g.AddEdge("strip", "a")
+	_ = g.AddEdge("strip", "b")
+	_ = g.AddEdge("a", END)
+	_ = g.AddEdge("b", END)
+	var copts []GraphCompileOption
+	if dag {
+		copts = append(copts, WithNodeTriggerMode(AllPredecessor))
+	}
+	r, err := g.Compile(ctx, copts...)
+	vassert(err == nil, "graph compiles")
+	var in *schema.StreamReader[int]
+	if piped {
+		sr, sw := schema.Pipe[int](3)
+		for _, x := range xs {
+			sw.Send(x, nil)
+		}
+		sw.Close()
+		in = sr
+	} else {
+		in = schema.StreamReaderFromArray(xs)
+	}
+	sr, err := r.Transform(ctx, in)
+	vassert(err == nil, "the run starts")
+	out, rerr := vDrainMap(sr)
+	vassert(rerr == nil, "the run returns")
+	vassert(out["a"] == 2 && out["b"] == 2, "each successor receives as many chunks as its predecessor handed on")
+	for _, k := range []string{"a", "b"} {
+		l := got[k]
+		vassert(len(l) == 2 && l[0] == xs[1] && l[1] == xs[2], "successor "+k+" runs on the chunks its predecessor produced, not on chunks the predecessor consumed")
+	}
+}
+
 // A chain with a multi-choice branch (value or stream condition): the condition names each of its two targets with
 // true, names it with false, or leaves it out; exactly the targets named with true run, and the chain returns the
 // merge of their outputs.
